@@ -695,8 +695,8 @@ def rule_l7(ctx):
                 hty = l
             elif ty == "&[bool]":
                 hbits = l
-            elif ty == "usize":
-                sizes.append(l)
+            elif ty in ("usize", "u64", "u32"):
+                sizes.append(l)         # the element count handed over by the arm (whatever integer type it travels in)
         if hbits is None:
             continue
         helper_loops[h] = _l7_loops(ctx, res, hb, hb.reachable([0]), "helper %s" % mir.last_seg(h), hty if hty is not None else -1, hbits, sizes)
@@ -1203,8 +1203,43 @@ def rule_l10(ctx):
             if tyarg["k"] not in ("copy", "move"):
                 continue
             roots = body.trace(tyarg["place"], through={})
+            # (`let ty = self.next_param_type()?;`: look through the `?`)
+            for (r, p) in list(roots):
+                if r[0] == "call" and body.term(r[1])["func"].get("declared") == "std::ops::Try::branch":
+                    roots = (set(roots) - {(r, p)}) | set(body.trace_operand(body.term(r[1])["args"][0], through={}))
             from_param = [r for (r, p) in roots if any("params" in str(x) or x == "ty" for x in p)]
-            resolved = [r for (r, p) in roots if r[0] == "call" and str(r[2]).endswith("resolve_const_type")]
+            def answers_resolved(fid, depth=0):
+                """a helper of the crate whose every answer (directly or as the Ok payload) is a resolve_const_type result"""
+                if depth > 2 or not ctx.has_fn(fid) or ctx.fns[fid]["kind"] == "closure":
+                    return False
+                hb = ctx.body(fid)
+                vals = []
+                for d in hb.defs().get(0, []):
+                    if d[0] == "call":
+                        vals.append(("callee", mir.callee(d[3]) or ""))
+                    elif d[0] == "assign" and d[3]["rv"]["k"] == "aggregate" and d[3]["rv"].get("variant") == "Ok":
+                        vals += [("op", o) for o in d[3]["rv"]["ops"]]
+                    elif d[0] == "assign" and d[3]["rv"]["k"] == "aggregate" and d[3]["rv"].get("variant") == "Err":
+                        continue
+                    elif d[0] == "assign" and d[3]["rv"]["k"] == "use":
+                        vals.append(("op", d[3]["rv"]["op"]))
+                    else:
+                        return False
+                oks = 0
+                for kind, v in vals:
+                    if kind == "callee":
+                        if str(v).endswith("from_residual"):
+                            continue
+                        if not (str(v).endswith("resolve_const_type") or answers_resolved(v, depth + 1)):
+                            return False
+                        oks += 1
+                    else:
+                        rs = hb.trace_operand(v, through={}) if v["k"] in ("copy", "move") else set()
+                        if not rs or not all(r2[0] == "call" and (str(r2[2]).endswith("resolve_const_type") or answers_resolved(str(r2[2]), depth + 1)) for (r2, p2) in rs):
+                            return False
+                        oks += 1
+                return oks > 0
+            resolved = [r for (r, p) in roots if r[0] == "call" and (str(r[2]).endswith("resolve_const_type") or answers_resolved(str(r[2])))]
             n += 1
             if resolved and len(resolved) == len(roots):
                 res.ok({"function": f["id"], "call": "%s at line %d" % (mir.last_seg(cal), t["sp"][1]), "verdict": "type comes from resolve_const_type"})
